@@ -109,6 +109,14 @@ Definition law_of (p : list tree) : option (list (Z * Q)) :=
     then Some (tally Z.eqb (dmap (fun m => code_of (mix m a b)) (uniform_xo_masks (length a))))
     else None
   | [A 7; A n; A pn; A pd] => Some (tally Z.eqb (dmap bools_code (random_bits (q_of pn pd) (Z.to_nat n))))
+  | [A 11; A op; A len; A i; A j; A rn; A rd] =>
+    (* a genome of `len` genes seen through positions i < j: the pair marginal of the model
+       (Generators.flip_pair_marginal / random_bits_pair / uniform_xo_pair): independent, each with rate r *)
+    if (0 <=? i) && (i <? j) && (j <? len) then
+      let r := if (op =? 2) || (op =? 3) || (op =? 4) then 1 # 2 else if op =? 6 then Qmake 1 (Z.to_pos len) else q_of rn rd in
+      Some (map (fun ab => (code_of [b2z (fst ab); b2z (snd ab)], Qmult (bern r (fst ab)) (bern r (snd ab))))
+                [(false, false); (true, false); (false, true); (true, true)])
+    else None
   | [A 8; A n; A ck; A cn; A cd] =>
     let c := if ck =? 0 then default_close (Z.to_nat n) else q_of cn cd in
     Some (tally Z.eqb (dmap (fun o => match o with None => 0 | Some i => Z.of_nat i + 1 end)
